@@ -3,8 +3,8 @@
    judged directly on the implementation by Run/C08run.v; the theorems here are about the
    string quoting of the printer model read back by the lexer model (the part of the law
    that depends on the characters of string values and descriptions). *)
-From Coq Require Import List NArith.
-From GQL Require Import Base.Bytes Syntax.Lexer Syntax.Printer Proofs.SyntaxPrinter.
+From Coq Require Import String List NArith.
+From GQL Require Import Base.Bytes Syntax.Lexer Syntax.Ast Syntax.Parser Syntax.Printer Proofs.SyntaxPrinter Proofs.SyntaxRender Syntax.Grammar Proofs.SyntaxTypeRT.
 Import ListNotations.
 Open Scope N_scope.
 
@@ -31,6 +31,44 @@ Theorem C08_string_roundtrip_partial : forall s rest, (forall c, In c s -> c < 1
     read_token (S (length (q ++ rest))) (q ++ rest) 0 = Ok (mktok STRING 0 (nlen q) s, rest, nlen q).
 Proof. exact quote_lex_roundtrip_ascii. Qed.
 Print Assumptions C08_string_roundtrip_partial.
+
+(* The token-boundary theorem for the printer's layouts (any layout, hence print_doc d for every
+   document d): if every separator consists of spaces, newlines and commas, every name piece is a
+   name and every number piece a number lexeme not followed by a character that would continue it,
+   every string piece consists of single-byte characters (and "" is not followed by a quote), and
+   punctuator pieces carry no value ([layout_wfb], a decidable condition), then lexing the printed
+   text gives back exactly the token pieces -- kind, value, and the byte offsets at which they were
+   written -- followed by the EOF token, and no name is flagged as preceded by a multi-byte character. *)
+Theorem C08_lex_layout : forall L, layout_wfb L = true ->
+  lex (flat L) = Ok (ptoks 0 L ++ [eof_tok (nlen (flat L))], false).
+Proof. exact lex_flat_layout. Qed.
+Print Assumptions C08_lex_layout.
+
+(* The semantic form: any layout whose token pieces are each read back before what follows them. *)
+Theorem C08_lex_layout_general : forall L w pos fuel, sep_ok w -> layout_ok L -> (length (w ++ flat L) < fuel)%nat ->
+  lex_all fuel (w ++ flat L) pos = Ok (ptoks (pos + nlen w) L ++ [eof_tok (pos + nlen w + nlen (flat L))], false).
+Proof. exact lex_layout. Qed.
+Print Assumptions C08_lex_layout_general.
+
+(* The whole chain print -> lex -> derive -> parse, proved for one recursive nonterminal: every
+   well-formed type (names are names, no NonNull directly inside NonNull -- what the parser
+   produces) is printed to a text whose tokens derive, and are parsed back to, a type equal to it
+   up to locations. *)
+Theorem C08_type_roundtrip : forall t, wf_ty t = true ->
+  exists ts t', lex (print_type t) = Ok (ts ++ [eof_tok (nlen (print_type t))], false) /\
+    DType ts t' /\ ty_eqv t t' /\
+    forall fuel pe, (length ts < fuel)%nat ->
+      parse_type fuel (pe, ts ++ [eof_tok (nlen (print_type t))]) = Ok (t', (endof pe ts, [eof_tok (nlen (print_type t))])).
+Proof. exact type_roundtrip. Qed.
+Print Assumptions C08_type_roundtrip.
+
+(* non-vacuity of C08_lex_layout: the layout of a parsed executable document is well-formed *)
+Example C08_layout_nonvacuous :
+  match parse (of_string "query Q($a: [Int!] = [1, -2.5e3]) @d(x: ""s"") { a: b(x: {k: $a}) ... on T { c } ...F }") with
+  | Ok (d, _) => layout_wfb (lay_doc d)
+  | _ => false
+  end = true.
+Proof. vm_compute. reflexivity. Qed.
 
 (* non-vacuity: the bytes BEL, double quote, backslash, DEL, LF, a and their printed form *)
 Example C08_nonvacuous :
